@@ -1,10 +1,10 @@
 package rules
 
 import (
-	"go/token"
-	"go/constant"
 	"fmt"
 	"go/ast"
+	"go/constant"
+	"go/token"
 	"go/types"
 	"sort"
 	"strings"
